@@ -13,16 +13,21 @@ def _fmag(x):
 
 class SymFloat:
     """t: z3 FP term; mag: conservative bound on |value| (used to size float->int conversions)."""
-    __slots__ = ("_t", "mag", "iv", "ratio")
+    __slots__ = ("_t", "mag", "iv", "ratio", "expr", "_lazy")
 
     def __init__(self, t, mag=float(1 << (W - 4)), iv=None):
         self._t = t
         self.mag = mag
         self.iv = iv   # exact value as int | SymInt when the double is known to be integer-valued
         self.ratio = None
+        self._lazy = None
+        self.expr = None    # symbolic expression tree ('int', x) | ('const', c) | (op, left, right): which computation produced the value
 
     @property
     def t(self):
+        if self._t is None and getattr(self, "_lazy", None) is not None:
+            fn, (a, b) = self._lazy
+            self._t = fn(a.t, b.t)
         if self._t is None:
             iv = self.iv
             if isinstance(iv, SymInt):
@@ -46,8 +51,11 @@ class SymFloat:
     @staticmethod
     def from_int(x):
         if isinstance(x, SymInt):
-            return SymFloat.of_int_valued(rnd53(x))
-        return SymFloat.of_int_valued(int(float(x)))
+            f = SymFloat.of_int_valued(rnd53(x))
+        else:
+            f = SymFloat.of_int_valued(int(float(x)))
+        f.expr = ("int", x)
+        return f
 
     @staticmethod
     def lift(x):
@@ -56,44 +64,54 @@ class SymFloat:
         if isinstance(x, SymInt):
             return SymFloat.from_int(x)
         if isinstance(x, (int, float)):
-            if float(x) == int(float(x)):
-                return SymFloat.of_int_valued(int(float(x)))
-            return SymFloat(z3.FPVal(float(x), F64), _fmag(x))
+            if isinstance(x, int):
+                return SymFloat.from_int(x)
+            if float(x) == int(float(x)) and abs(x) < 2.0 ** 62:
+                f = SymFloat.of_int_valued(int(float(x)))
+            else:
+                f = SymFloat(z3.FPVal(float(x), F64), _fmag(x))
+            f.expr = ("const", float(x))
+            return f
         raise Unsupported("float lift %r" % type(x))
 
-    def _bin(self, o, fn, rev=False, mag=lambda a, b: a + b + 1.0, ifn=None):
+    def _bin(self, o, fn, rev=False, mag=lambda a, b: a + b + 1.0, ifn=None, opname="?"):
         try:
             o = SymFloat.lift(o)
         except Unsupported:
             return NotImplemented
+        ex = (opname, o.expr, self.expr) if rev else (opname, self.expr, o.expr)
         if ifn is not None and self.iv is not None and o.iv is not None:
             x, y = (o.iv, self.iv) if rev else (self.iv, o.iv)
             r = ifn(x, y)
-            return SymFloat.of_int_valued(rnd53(r) if isinstance(r, SymInt) else int(float(r)))
-        a, b = (o.t, self.t) if rev else (self.t, o.t)
-        return SymFloat(fn(a, b), mag(self.mag, o.mag))
+            res = SymFloat.of_int_valued(rnd53(r) if isinstance(r, SymInt) else int(float(r)))
+            res.expr = ex
+            return res
+        res = SymFloat(None, mag(self.mag, o.mag))
+        res._lazy = (fn, (o, self) if rev else (self, o))
+        res.expr = ex
+        return res
 
     def __add__(self, o):
-        return self._bin(o, lambda a, b: z3.fpAdd(RNE, a, b), ifn=lambda x, y: x + y)
+        return self._bin(o, lambda a, b: z3.fpAdd(RNE, a, b), opname="add", ifn=lambda x, y: x + y)
 
     __radd__ = __add__
 
     def __sub__(self, o):
-        return self._bin(o, lambda a, b: z3.fpSub(RNE, a, b), ifn=lambda x, y: x - y)
+        return self._bin(o, lambda a, b: z3.fpSub(RNE, a, b), opname="sub", ifn=lambda x, y: x - y)
 
     def __rsub__(self, o):
-        return self._bin(o, lambda a, b: z3.fpSub(RNE, a, b), rev=True, ifn=lambda x, y: x - y)
+        return self._bin(o, lambda a, b: z3.fpSub(RNE, a, b), opname="sub", rev=True, ifn=lambda x, y: x - y)
 
     def __mul__(self, o):
-        return self._bin(o, lambda a, b: z3.fpMul(RNE, a, b), mag=lambda a, b: a * b + 1.0, ifn=lambda x, y: x * y)
+        return self._bin(o, lambda a, b: z3.fpMul(RNE, a, b), opname="mul", mag=lambda a, b: a * b + 1.0, ifn=lambda x, y: x * y)
 
     __rmul__ = __mul__
 
     def __truediv__(self, o):
-        return self._bin(o, lambda a, b: z3.fpDiv(RNE, a, b), mag=lambda a, b: float(1 << (W - 4)))
+        return self._bin(o, lambda a, b: z3.fpDiv(RNE, a, b), opname="div", mag=lambda a, b: float(1 << (W - 4)))
 
     def __rtruediv__(self, o):
-        return self._bin(o, lambda a, b: z3.fpDiv(RNE, a, b), rev=True, mag=lambda a, b: float(1 << (W - 4)))
+        return self._bin(o, lambda a, b: z3.fpDiv(RNE, a, b), opname="div", rev=True, mag=lambda a, b: float(1 << (W - 4)))
 
     def __neg__(self):
         return SymFloat.of_int_valued(-self.iv) if self.iv is not None else SymFloat(z3.fpNeg(self.t), self.mag)
